@@ -54,6 +54,11 @@ def baseline(name, keep):
     return _CACHE[key]
 
 
+def _centre(name):
+    xs = [[float(l[30:38]), float(l[38:46]), float(l[46:54])] for l in M.text(name).split('\n') if l.startswith('ATOM')]
+    return [round(sum(c[i] for c in xs) / len(xs), 3) for i in range(3)]
+
+
 def mk_translate(name, axis, lo, hi, keep, rotation=None):
     def body(ctx):
         txt, base = baseline(name, keep)
@@ -224,6 +229,14 @@ def obligations(tier):
                                       claim_doc='bonds, groups, num_volume, buried, energy_volume identical; pKa and determinants identical (keep-protons) / '
                                                 'within %.2f (built hydrogens, positions within rounding of the shifted ones)' % TOL,
                                       max_paths=5000, wall_s=170 if tier == 'quick' else 1200, query_timeout_ms=20000))
+    # shifts that put the structure across the origin (negative coordinates, cell index -1/0)
+    for name in (['tri_ASP'] if tier == 'quick' else ['tri_ASP', 'tri_HIS', 'tri_ARG', 'tri_LYS']):
+        cen = _centre(name)
+        for ax, axn in axes[:3]:
+            lo = -cen[ax[0]] - 1.25
+            obs.append(Obligation('O1-translation-across-origin[%s,%s]' % (name, axn), mk_translate(name, ax, lo, lo + 2.509, False), code=code_pipe,
+                                  bounds='%s shifted along %s by t = k/1000 in [%.3f, %.3f]: the structure straddles the coordinate origin' % (name, axn, lo, lo + 2.509),
+                                  claim_doc='as O1-translation', max_paths=5000, wall_s=170 if tier == 'quick' else 1200))
     if tier == 'thorough':
         for name in ('tri_ASP', 'tri_HIS'):
             for ri, r in enumerate(ROT24):
